@@ -140,8 +140,27 @@ class Interp:
     def _mutable_self_fields(self):
         """Fields of the protocol assigned outside the constructor chain (anywhere in the program)."""
         out = set()
+        # constructor helpers: methods whose every mention (self.m, Class.m) sits in an __init__ or in another such helper - they
+        # run as part of the constructor chain and nowhere else
+        mentions_of = {}
         for f in self.prog.funcs.values():
-            if f.name == "__init__":
+            for n in ast.walk(f.node):
+                if isinstance(n, ast.Attribute):
+                    mentions_of.setdefault(n.attr, set()).add(f.name if f.parent is None else "<nested>")
+        helpers = set()
+        changed = True
+        while changed:
+            changed = False
+            for f in self.prog.funcs.values():
+                if f.cls is None or f.parent is not None or f.name in helpers or f.name.startswith("__"):
+                    continue
+                users = mentions_of.get(f.name)
+                if users and all(u == "__init__" or u in helpers for u in users):
+                    helpers.add(f.name)
+                    changed = True
+        self.constructor_helpers = helpers
+        for f in self.prog.funcs.values():
+            if f.name == "__init__" or (f.cls is not None and f.parent is None and f.name in helpers):
                 continue
             for n in ast.walk(f.node):
                 tgts = []
@@ -392,7 +411,9 @@ class Interp:
         src = fx.module._abs(n.level, n.module)
         for al in n.names:
             nm = al.asname or al.name
-            if src in self.prog.modules:
+            if src + "." + al.name in self.prog.modules:
+                st.env[nm] = ("module", self.prog.modules[src + "." + al.name])      # from package import submodule
+            elif src in self.prog.modules:
                 r = self.prog.resolve(self.prog.modules[src], al.name)
                 st.env[nm] = self._resolved_to_term(r, al.name)
             else:
